@@ -87,6 +87,16 @@ Theorem C20_eval_matches_assign_partial : forall o v a,
 Proof. exact assgn_matches. Qed.
 Print Assumptions C20_eval_matches_assign_partial.
 
+(* C20_atoi, PARTIAL: proved for decimal constants (non-empty digit string not starting with 0, value < 2^63):
+   atoi reads exactly the value of bash's constant grammar [lit_value].  Not proved (legs only: 60 pinned strings and
+   all generated literal forms on every run): 0octal, 0xhex, base#digits, optional sign and surrounding blanks,
+   and that atoi gives 0 on everything the grammar rejects. *)
+Theorem C20_atoi_decimal_partial : forall c r v,
+  c <> 48%N -> digits_val dec_digit 10 (c :: r) 0 = Some v -> (v < two63)%Z ->
+  atoi (c :: r) = v /\ lit_value (c :: r) = Some v.
+Proof. exact atoi_decimal. Qed.
+Print Assumptions C20_atoi_decimal_partial.
+
 (* non-vacuity: a tree with every kind of node is well-formed, needs parentheses, and round-trips *)
 Example C20_example_roundtrip :
   let e := Bin Mul (Bin Add (Word [49%N]) (Un Inc true (Word [120%N])))
